@@ -58,8 +58,8 @@ def table_scripts(ctx):
     rows = {}
     for s in r.emitted():
         rows[tuple(s["row"])] = s
-    if len(rows) != 18 * 16 + 4 * 8:
-        raise vlib.Inconclusive("the C03 table has %d rows, expected %d" % (len(rows), 18 * 16 + 4 * 8))
+    if len(rows) != 18 * 16 + 4 * 8 + 3 * 4:
+        raise vlib.Inconclusive("the C03 table has %d rows, expected %d" % (len(rows), 18 * 16 + 4 * 8 + 3 * 4))
     return [rows[k] for k in sorted(rows)], r
 
 
